@@ -196,6 +196,8 @@ def gen_workload(tape):
     w["write_args"] = kind.startswith("pickle") and tape.flag("write_args", 1, 4)
     w["post_reader"] = kind.startswith("pickle") and tape.flag("post_reader", 1, 4)
     w["worker_type"] = tape.pick([None, "thread", "process"], "wtype")
+    # transparent decompression switched off (only where nothing is compressed)
+    w["decompress_off"] = kind != "pickle_z" and tape.flag("decompress_off", 1, 4)
     w["max_workers"] = tape.pick([None, 1, 2, 3], "workers")
     ops = []
     n = tape.count(3, 12, "nops", (5, 6))
@@ -231,6 +233,9 @@ def gen_workload(tape):
                 o["convert"] = tape.pick([False, False, True, "callable"], "convert")
                 o["as_fileset"] = tape.flag("as_fileset", 1, 2)
                 o["ext"] = tape.choice(4, "text")
+                # "move" onto the fileset's own template with convert set:
+                # every file keeps its name and is rewritten in place
+                o["inplace"] = op == "move" and tape.flag("inplace", 1, 8)
         elif op == "read":
             o["fs"] = tape.choice(3, "which_fs")
             o["idx"] = tape.choice(12, "ridx")
@@ -343,6 +348,8 @@ class Run:
                 kw["post_reader"] = post_reader
         if w["worker_type"]:
             kw["worker_type"] = w["worker_type"]
+        if w.get("decompress_off") and _suffix_class(ext) == "plain":
+            kw["decompress"] = False
         ms.obj = FileSet(ms.template, name=f"S{ms.idx}", time_coverage=ms.tcov,
                          max_processes=3, max_threads=2, fs=SimLocalFS(), **kw)
         self.sets.append(ms)
@@ -558,14 +565,42 @@ class Run:
         # ---- move / copy ----------------------------------------------------------
         copy = kind == "copy"
         convert = o["convert"]
+        if o.get("inplace") and convert and ms.kind.startswith("pickle"):
+            self.sim.probe("convert_in_place")
+            conv_arg = converter if convert == "callable" else True
+            try:
+                ms.obj.move(ms.template, convert=conv_arg, **kw, **extra)
+            except Exception as e:  # noqa
+                if not chosen and type(e).__name__ == "NoFilesError":
+                    return
+                self.V.append(_viol(f"C11/convert-in-place/exception/{type(e).__name__}",
+                                    f"{type(e).__name__}: {e}"[:300]))
+                self._resync()
+                return
+            for f in chosen:
+                payload = self.expected_read(f)
+                if convert == "callable":
+                    payload = dict(payload, converted=True)
+                if self.w["write_args"]:
+                    payload = dict(payload, write_tag="WA")
+                f.payload, f.sha, f.verbatim_kind = payload, None, None
+            if chosen:
+                self.state_changes += 1
+                self.selected_ops += 1
+            self.compare("convert-in-place")
+            for f in chosen:
+                if f.path in self.files:
+                    f.sha = _sha(f.path)
+                    self.check_content(f, "convert-in-place")
+            return
         if convert and not ms.kind.startswith("pickle") and convert == "callable":
             convert = True
         tkind = ms.kind
         ext = ms.ext
         if convert and ms.kind.startswith("pickle"):
             # converting may also change the storage format of the copies
-            ext = (EXTS["pickle"] + EXTS["pickle_z"])[o["ext"] % 6] \
-                if o["ext"] else ms.ext
+            pool = EXTS["pickle"] + ([] if self.w.get("decompress_off") else EXTS["pickle_z"])
+            ext = pool[o["ext"] % len(pool)] if o["ext"] else ms.ext
             tkind = "pickle_z" if ext in EXTS["pickle_z"] else "pickle"
         as_fileset = o["as_fileset"]
         if convert and ms.kind == "csv" and o["ext"] % 2:
